@@ -848,7 +848,9 @@ func ext۰sync۰Once۰Do(fr *frame, args []value) value {
 	if !o.done {
 		o.done = true
 		call(fr.i, fr, 0, args[1], nil)
+		st.raceRelease(fr.g, p)
 	}
+	st.raceAcquire(fr.g, p)
 	return nil
 }
 
